@@ -1849,7 +1849,10 @@ class DocutilsRenderer(RendererProtocol):
         # handle circular references
         ast = env.parse(f"{{{{{token.content}}}}}")
         references = {
-            n.name for n in ast.find_all(jinja2.nodes.Name) if n.name != "env"
+            n.name
+            for n in ast.find_all(jinja2.nodes.Name)
+            # "env" is only the (non-substitution) sphinx environment if there is one
+            if not (n.name == "env" and self.sphinx_env is not None)
         }
         self.document.sub_references = getattr(self.document, "sub_references", set())
         cyclic = references.intersection(self.document.sub_references)
